@@ -32,11 +32,11 @@ func C15(r *core.Run) {
 	rule157(r)
 	rule158(r)
 	rule0210(r, "C15")
-	rule0210(r, "C15")
 	rule0112(r, "C15")
 	rule0212(r)
 	rule1013(r)
 	rule0113(r)
+	rule1510(r)
 }
 
 var boltMutators = map[string]bool{
@@ -825,4 +825,47 @@ func isConstString(a, b ssa.Value) bool {
 		}
 	}
 	return false
+}
+
+// rule1510 — a bucket's metadata is discarded only together with the bucket.
+func rule1510(r *core.Run) {
+	r.Rule("R15.10", "metaStore.deleteBucket (which removes every metadata record of a bucket) is called only by the fs backends' DeleteBucket / ForceDeleteBucket, and there only after the removal of the bucket directory itself (RemoveAll/Remove of the bucket name on the bucket filesystem) on every path: no other operation — in particular none that can still be refused — discards the records of live objects")
+	df := mustFunc(r, "s3afero.(*metaStore).deleteBucket")
+	if df == nil {
+		return
+	}
+	n := 0
+	for _, fn := range r.P.FuncsOfPkg("s3afero") {
+		f := fn
+		core.Instrs(f, func(in ssa.Instruction) {
+			c, ok := in.(*ssa.Call)
+			if !ok || core.StaticCallee(c) != df {
+				return
+			}
+			n++
+			name := fname(r, f)
+			okOwner := strings.HasSuffix(name, ").DeleteBucket") || strings.HasSuffix(name, ").ForceDeleteBucket")
+			r.Check(okOwner, "R15.10", key(name, "deleteBucket only from bucket deletion", sprintf("#%d", n)), pos(r, c), "called by a bucket-deleting operation",
+				"the metadata records of a whole bucket are removed by "+name+", which is not a bucket deletion: the records of live objects are lost (every later read of them fails or re-derives different values)")
+			if !okOwner || len(c.Call.Args) < 2 {
+				return
+			}
+			// the bucket directory is removed first
+			isRm := func(y ssa.Instruction) bool {
+				cc, isCall := y.(ssa.CallInstruction)
+				if !isCall {
+					return false
+				}
+				cn := r.P.CalleeName(cc)
+				if !strings.HasSuffix(cn, "afero.Fs.RemoveAll") && !strings.HasSuffix(cn, "afero.Fs.Remove") {
+					return false
+				}
+				args := cc.Common().Args
+				return len(args) >= 1 && (args[len(args)-1] == c.Call.Args[1] || sameValue(r, args[len(args)-1], c.Call.Args[1], 0))
+			}
+			r.Check(!core.ReachableFromEntryAvoiding(c, isRm), "R15.10", key(name, "bucket directory removed first", sprintf("#%d", n)), pos(r, c), "RemoveAll(bucket) precedes on every path",
+				"the bucket's metadata records can be removed before (or without) the bucket directory itself: if the operation is then refused or fails, the bucket lives on without its records")
+		})
+	}
+	r.Floor("R15.10", 2, "calls of metaStore.deleteBucket")
 }
